@@ -2,7 +2,11 @@
 
 package proxy
 
-import "net"
+import (
+	"net"
+
+	"github.com/go-logr/logr"
+)
 
 // VerifWrapProxyProtocol applies the accept-path PROXY protocol wrapping (what
 // listenAndServe does for every accepted connection when proxyProtocol is enabled).
@@ -12,3 +16,6 @@ func (p *Proxy) VerifWrapProxyProtocol(conn net.Conn) net.Conn {
 	}
 	return p.proxyProtocol.Load().wrapConn(conn)
 }
+
+// VerifSetLogger installs a logger without Start (replay diagnostics only).
+func (p *Proxy) VerifSetLogger(l logr.Logger) { p.log = l }
